@@ -465,6 +465,42 @@ def main_check(mod, argv):
         runner.evaluations += srunner.evaluations
         runner.distinct |= srunner.distinct
 
+    # 4b. change-directed search: the tie is intact and nothing failed, but the source of a function
+    # this property's cases execute differs from the baseline the checks were validated on
+    # (extract/baseline_digests.json): search longer.  A changed digest is never an alarm by itself.
+    changed_funcs, directed = relevant_changes(prop), 0
+    if changed_funcs and not tie_problems and not new_failures and b['driver_ok'] \
+            and os.environ.get('VERIF_NO_DIRECTED') != '1':
+        focus = mod.focus_changed(changed_funcs) if hasattr(mod, 'focus_changed') else {}
+        srunner = Runner(mod, tier, seed)
+        deadline = time.time() + (75 if tier == 'quick' else 600)
+        for rnd in range(8):
+            srng = random.Random(seed * 104729 + rnd + 1)
+            buf = []
+            for c in mod.generate(srng, tier, 1, **(focus or {})):
+                buf.append(c)
+                if len(buf) >= 500:
+                    srunner.batch(buf); buf = []
+                    if srunner.failures or time.time() > deadline:
+                        break
+            srunner.batch(buf)
+            for c, v in srunner.failures:
+                cl = mod.classify(c, v) if hasattr(mod, 'classify') else None
+                if not (cl and any(kf['classifier'] == cl for kf in known)):
+                    new_failures.append((c, v))
+            if new_failures or time.time() > deadline:
+                break
+        directed = srunner.evaluations
+        runner.evaluations += srunner.evaluations
+        runner.distinct |= srunner.distinct
+        if srunner.disagreements and not new_failures:
+            # the longer search met a case on which model and implementation differ: the tie is broken
+            tie_problems.append({'kind': 'correspondence',
+                                 'detail': '%d cases where model and implementation differ (change-directed search)' % len(srunner.disagreements),
+                                 'cases': [{'case': mod.key(c), 'impl': c.get('impl'), 'model': v.get('model')}
+                                           for c, v in srunner.disagreements[:5]]})
+            runner.disagreements += srunner.disagreements
+
     # 5. report
     rc = 0
     lines = []
@@ -518,6 +554,8 @@ def main_check(mod, argv):
             'property_failures_on_impl': len(runner.failures),
             'known_findings_reproduced': sorted(known_hit),
             'search_cases_after_broken_tie': searched,
+            'changed_functions_vs_baseline': changed_funcs,
+            'change_directed_search_cases': directed,
             'tie_problems': [t['kind'] for t in tie_problems],
         },
         'assumptions': list(getattr(mod, 'ASSUMPTIONS', [])),
@@ -538,6 +576,35 @@ def main_check(mod, argv):
               len(runner.failures), len(runner.disagreements),
               [t['kind'] for t in tie_problems] or 'none', time.time() - t0))
     return rc
+
+
+def relevant_changes(prop):
+    """functions of glom whose source differs from the baseline digests and which this property's
+    quick-tier cases execute (extract/func_cov.json); new or unmapped functions count for every
+    property whose cases execute something in the same file"""
+    try:
+        sys.path.insert(0, os.path.join(VERIF, 'extract'))
+        import srcdigest
+        ch = srcdigest.changed(REPO)
+        cov = json.load(open(os.path.join(VERIF, 'extract', 'func_cov.json'))).get(prop, [])
+    except Exception:
+        return []
+    if not ch:
+        return []
+    covset = set(cov)
+    files = {k.split('::')[0] for k in cov}
+    known_all = set()
+    try:
+        for v in json.load(open(os.path.join(VERIF, 'extract', 'func_cov.json'))).values():
+            known_all |= set(v)
+    except Exception:
+        pass
+    out = []
+    for k in ch:
+        f = k.split('::')[0]
+        if k in covset or (f in files and (k not in known_all or k.endswith('::<module>'))):
+            out.append(k)
+    return out
 
 
 def first_error(log):
